@@ -306,7 +306,7 @@ pub fn generate(prop: &str, tier: &str, r: &mut Rng, out: &mut Vec<String>) -> G
         "C07" => {
             use crate::gen3::*;
             use crate::sources::Ev;
-            let n = if thorough { 5_000 } else { 200 };
+            let n = if thorough { 1_500 } else { 200 };
             let mut msgs: Vec<(Vec<u8>, Vec<u8>)> = short_messages().into_iter().filter(|m| crate::exec::parse_flat(m).is_ok()).map(|m| (m, vec![])).collect();
             for _ in 0..n {
                 let mut rr = r.fork();
@@ -355,7 +355,7 @@ pub fn generate(prop: &str, tier: &str, r: &mut Rng, out: &mut Vec<String>) -> G
         }
         "C08" => {
             use crate::gen3::*;
-            let n = if thorough { 30_000 } else { 2_000 };
+            let n = if thorough { 10_000 } else { 2_000 };
             let lim = Limits { max_depth: 2, boundary: false };
             for i in 0..n {
                 let mut rr = r.fork();
@@ -367,7 +367,7 @@ pub fn generate(prop: &str, tier: &str, r: &mut Rng, out: &mut Vec<String>) -> G
                     1 => 1,
                     2..=3 => rr.range(2, 300) as usize,
                     4 => rr.range(300, 5000) as usize,
-                    _ => if thorough && rr.chance(1, 20) { rr.range(1 << 20, 3 << 20) as usize } else { rr.range(5000, 300000) as usize },
+                    _ => if thorough && rr.chance(1, 40) { rr.range(1 << 20, 3 << 20) as usize } else { rr.range(5000, 300000) as usize },
                 };
                 let pay = rr.bytes(plen);
                 let mut evs = random_composition(&mut rr, &pay);
@@ -389,7 +389,7 @@ pub fn generate(prop: &str, tier: &str, r: &mut Rng, out: &mut Vec<String>) -> G
             GenInfo { rule: "seeded random messages x payload source kind {none, blocking, async} x payload contents (0 B to 70 KB; MiBs in the thorough tier) delivered in random fragments with not-ready results (async; ignored by blocking) and Interrupted results (blocking) x consumer {Read, AsyncRead} x sequences of 0-39 read-buffer sizes from 1 B to 64 KiB (then 4096); the drained bytes and the way the stream ends are compared with header+attributes ++ payload and with the model; non-trivial = distinct case lines".into(), exhaustive: false }
         }
         "C20" => {
-            let n = if thorough { 60_000 } else { 3_000 };
+            let n = if thorough { 30_000 } else { 3_000 };
             let lim = Limits { max_depth: if thorough { 5 } else { 3 }, boundary: true };
             for _ in 0..n {
                 let mut rr = r.fork();
@@ -550,7 +550,7 @@ pub fn generate(prop: &str, tier: &str, r: &mut Rng, out: &mut Vec<String>) -> G
             }
         }
         "C01" | "C03" => {
-            let n = if thorough { 60_000 } else { 3_000 };
+            let n = if thorough { 20_000 } else { 3_000 };
             let lim = Limits { max_depth: if thorough { 6 } else { 4 }, boundary: true };
             for m in boundary_msgs() {
                 if prop == "C03" {
